@@ -13,7 +13,7 @@ import time
 import traceback
 
 ROOT = os.path.dirname(os.path.dirname(os.path.abspath(__file__)))
-EVIDENCE_DIR = os.path.join(ROOT, "evidence")
+EVIDENCE_DIR = os.environ.get("VERIF_EVIDENCE_DIR") or os.path.join(ROOT, "evidence")  # the override is for tools/run_mutant_scratch.sh
 REPLAY_DIR = os.path.join(ROOT, "replays")
 FINDINGS = os.path.join(ROOT, "known_findings.json")
 
